@@ -323,3 +323,29 @@ func ruleDeletedNoValue(c *Check, rule string, t *MergeTable) {
 		c.Ok(rule, t.Name+"/deleted-has-no-value", fmt.Sprintf("%d cells: an entry written with the deleted flag never carries a value, even when the incoming entry does", n), c.P.Pos(t.Fn.Pos()))
 	}
 }
+
+// ruleStoredValidated (C14-R7): a stored value is only used after header.Parse
+// accepted it: malformed stored values (too short, other version) are rejected
+// with an error, never kept or misread.
+func ruleStoredValidated(c *Check, rule string, t *MergeTable) {
+	n, bad := 0, 0
+	for i := range t.Paths {
+		p := &t.Paths[i]
+		if p.End != "return" || !retIsNilErr(p) {
+			continue
+		}
+		if p.State.RelOf("int", "len("+t.old+")", "const:0") == EQ {
+			continue // key absent: nothing stored
+		}
+		n++
+		okp, f := boolCond(p, "isnil("+t.parse+"#2)", -1)
+		if !f || !okp {
+			bad++
+			c.Bad(rule, t.Name+"/stored-validated", "a stored value is kept or merged on a path that has not passed header.Parse's validation of it (length >= 24, version 0, extension blocks present): a value that is too short or has another header version would be misread instead of rejected", c.pathPos(p), describe(c, p))
+		}
+	}
+	if bad == 0 {
+		c.Ok(rule, t.Name+"/stored-validated", fmt.Sprintf("all %d successful paths with a stored value passed header.Parse's validation before using it", n), c.P.Pos(t.Fn.Pos()))
+	}
+	c.Floor(rule, n, 3, "successful paths with a stored value in "+t.Name)
+}
